@@ -512,12 +512,121 @@ fn op_decode(reg: &[Ty], c: &Value) -> Value {
             if let Err(m) = again {
                 o["rt_msg"] = json!(m);
             }
+            let (nm, b3) = (name.to_string(), bytes.clone());
+            match catch(move || post_verify(&nm, &b3)) {
+                Ok(Some(v)) => o["verify"] = json!(v),
+                Ok(None) => {}
+                Err(m) => {
+                    o["r"] = json!("panic");
+                    o["msg"] = json!(format!("verification of the decoded message: {m}"));
+                }
+            }
             if c["want_enc"].as_bool().unwrap_or(false) {
                 o["enc"] = json!(hex(&enc));
             }
             o
         }
     }
+}
+
+// ---------------------------------------------------------------------------
+// semantic verification of decoded consensus messages (what the replica runs on a message
+// after decoding it): must return Ok / Err, never panic, whatever the field values.
+
+fn schedule_of_len(n: usize) -> validator::Schedule {
+    let n = n.clamp(1, 16);
+    let keys = vh::keys::validator_pool(16);
+    validator::Schedule::new(
+        keys[..n].iter().map(|k| validator::ValidatorInfo { key: k.public(), weight: 1, leader: true }),
+        validator::LeaderSelection { frequency: 1, mode: validator::LeaderSelectionMode::RoundRobin },
+    )
+    .unwrap()
+}
+
+fn verify_chonky(m: &validator::v2::ChonkyMsg) -> String {
+    use validator::v2::ChonkyMsg as C;
+    match m {
+        C::ReplicaCommit(x) => format!("{:?}", x.verify(x.view.genesis, x.view.epoch).is_ok()),
+        C::ReplicaTimeout(x) => {
+            let n = x.high_qc.as_ref().map(|q| q.signers.len()).unwrap_or(4);
+            format!("{:?}", x.verify(x.view.genesis, x.view.epoch, &schedule_of_len(n)).is_ok())
+        }
+        C::ReplicaNewView(x) => {
+            let v = x.view();
+            let n = just_len(&x.justification);
+            let s = schedule_of_len(n);
+            let r = x.verify(v.genesis, v.epoch, &s).is_ok();
+            format!("{r:?}")
+        }
+        C::LeaderProposal(x) => {
+            let v = x.view();
+            let s = schedule_of_len(just_len(&x.justification));
+            let r = x.verify(v.genesis, v.epoch, &s).is_ok();
+            format!("{r:?}")
+        }
+    }
+}
+
+fn just_len(j: &validator::v2::ProposalJustification) -> usize {
+    match j {
+        validator::v2::ProposalJustification::Commit(q) => q.signers.len(),
+        validator::v2::ProposalJustification::Timeout(q) => q.map.values().next().map(|s| s.len()).unwrap_or(4),
+    }
+}
+
+/// Some(result) for the types that have a semantic verification step.
+fn post_verify(name: &str, b: &[u8]) -> Option<String> {
+    use validator::v2 as m;
+    Some(match name {
+        "v2.CommitQC" => {
+            let q: m::CommitQC = zp::decode(b).ok()?;
+            let s = schedule_of_len(q.signers.len());
+            format!("{:?}", q.verify(q.view().genesis, q.view().epoch, &s).is_ok())
+        }
+        "v2.TimeoutQC" => {
+            let q: m::TimeoutQC = zp::decode(b).ok()?;
+            let n = q.map.values().next().map(|s| s.len()).unwrap_or(4);
+            let s = schedule_of_len(n);
+            let r = q.verify(q.view.genesis, q.view.epoch, &s).is_ok();
+            // the accessors used by get_implied_block, on a certificate that verified
+            if r {
+                let _ = (q.high_vote(&s), q.high_qc().is_some(), q.weight(&s));
+            }
+            format!("{r:?}")
+        }
+        "v2.ReplicaCommit" | "v2.ReplicaTimeout" | "v2.ReplicaNewView" | "v2.LeaderProposal" | "v2.ChonkyMsg" => {
+            let c: m::ChonkyMsg = match name {
+                "v2.ReplicaCommit" => m::ChonkyMsg::ReplicaCommit(zp::decode(b).ok()?),
+                "v2.ReplicaTimeout" => m::ChonkyMsg::ReplicaTimeout(zp::decode(b).ok()?),
+                "v2.ReplicaNewView" => m::ChonkyMsg::ReplicaNewView(zp::decode(b).ok()?),
+                "v2.LeaderProposal" => m::ChonkyMsg::LeaderProposal(zp::decode(b).ok()?),
+                _ => zp::decode(b).ok()?,
+            };
+            verify_chonky(&c)
+        }
+        "v2.FinalBlock" => {
+            let f: m::FinalBlock = zp::decode(b).ok()?;
+            let s = schedule_of_len(f.justification.signers.len());
+            let v = *f.justification.view();
+            format!("{:?}", f.verify(v.genesis, v.epoch, &s).is_ok())
+        }
+        "validator.Signed<ConsensusMsg>" | "rpc.consensus.Req" => {
+            let bytes = if name == "rpc.consensus.Req" {
+                // ConsensusReq { msg = 1 }: strip the outer field
+                let p = <net::proto::consensus::ConsensusReq as zp::build::prost::Message>::decode(b).ok()?;
+                p.msg?.encode_to_vec()
+            } else {
+                b.to_vec()
+            };
+            let sm: validator::Signed<validator::ConsensusMsg> = zp::decode(&bytes).ok()?;
+            let sig = sm.verify().is_ok();
+            let validator::ConsensusMsg::V2(c) = &sm.msg;
+            let label = sm.msg.label();
+            let vn = sm.msg.view_number().0;
+            format!("{sig} {label} {vn} {}", verify_chonky(c))
+        }
+        _ => return None,
+    })
 }
 
 // ---------------------------------------------------------------------------
